@@ -70,7 +70,9 @@ def leaves(cls, skip=(), headers=("Phreeqc.h", "IPhreeqc.hpp")):
                 typ, cnt = am.group(1).strip(), cnt * int(am.group(2))
                 am = re.match(r"(.*)\[(\d+)\]$", typ)
         typ = typ.replace("const ", "").strip()
-        if typ.endswith("*") or "(*)" in typ:
+        if "(*)" in typ:
+            sz, kind = 8, "f"          # function pointer (callback): never dereferenced by the re-initialisation itself
+        elif typ.endswith("*"):
             sz, kind = 8, "p"
         elif typ in SIZES:
             sz, kind = SIZES[typ], ("d" if typ in ("double", "float", "long double", "LDBLE") else "i")
